@@ -12,7 +12,7 @@ model.
 Coverage audit (statement / quantifier / API item -> stream that drives it ON THE IMPLEMENTATION; P = the
 property predicate "cell == jaccarddist(pair) bitwise, right buffer, runs agree" is judged there, M = the model
 is compared as well).  "audit-*" streams were added by the audit; kinds api / sequence / concurrent /
-envthreads are P only (outside the Coq model, see the comment above XCONT_HOMOG).
+envthreads / state / blocks are P only (outside the Coq model, see the comment above XCONT_HOMOG).
   one query x many refs (jaccarddist_array)      array-exhaustive, random-array, audit-*              P M
   query x reference matrix                       matrix-families, random-matrix, audit-*              P M
   all pairs, square (symmetry, zero diagonal)    pairwise-families, random-pairwise (cell (i,j) is
@@ -58,6 +58,12 @@ envthreads are P only (outside the Coq model, see the comment above XCONT_HOMOG)
   one buffer / index object / container reused   WAS MISSING -> audit-call-sequences (also: an array   P
     across calls; results of earlier calls         the function allocated must keep its values after
                                                    later calls)
+  queries / query / references that were READ OUT WAS MISSING -> blocks-holder-types, blocks-scripts  P
+    OF a holder (holder[a:b], holder[:], holder[    (kind `blocks`: 19 holder types, 8 of them signature
+    index list], holder[a:b:step], holder[i], a     files; several blocks alive at once; a block as the
+    list of items) and are used while the holder    queries against its own holder in chunks; block vs
+    is read again (by the same call, chunk by       block; takes between calls; results dropped at once)
+    chunk, or by a later take / call)
   thread counts 1..16 via omp_set_num_threads,   every stream (tcycle / randint), schedule (reps 8)   P M
     more threads than refs, repeated runs
   thread count from OMP_NUM_THREADS / OMP_DYNAMIC WAS MISSING -> audit-env-threads (fresh interpreter)  P
@@ -106,6 +112,12 @@ so a call that edited it edited the case).
                                                         may get the old address), a bad item put in and taken out
   queries holder (E2; caller), also the SAME object     S, old       S    S    S            S
     as the references
+  blocks handed out by a holder when it is indexed      B (kind `blocks`, added after seeding round 8): a script on ONE holder
+    (slice, full slice, stepped slice, index list,      takes 1-8 blocks, keeps them all alive (some are dropped at once) and passes
+    one item, list of items); owned by the caller,      them as queries / query / references, alone, against each other and against
+    must not be tied to later reads of the holder       the holder itself (chunk sizes 1..n+1, index selections, 1-16 threads), with
+    (for a file reader: every read is its own copy      further takes in between; only the cells are judged, each against
+    of the file's content)                              jaccarddist of the pair built afresh from the case's lists
   ref_indices / indices object (E2, E3; caller): list,  old: one     S,   S    S            S, T
     tuple, range, ndarray of any integer dtype /        collection;  T
     strided / read-only, array.array, NumPy scalars     S: against collections of two sizes (negative entries mean
@@ -172,7 +184,12 @@ RULE = ('bulk call (array / matrix / pairwise) on a collection x container x dty
         'earlier keep their values"; non-trivial: a second or later good call has two different cells.  concurrent with '
         'shared=True: the jobs use one references holder and one index object, compared afterwards with their state before.  chunkgens: 2-5 '
         'chunk_slices generators alive at once; non-trivial: two generators, one with two slices.  '
-        'api / sequence / concurrent / envthreads / state / chunkgens are judged by the property predicate only (no model)')
+        'blocks: a script of 2-9 steps on one holder (19 holder types, 8 of them signature files): takes (holder[a:b], '
+        'holder[:], holder[a:b:step], holder[index list], holder[i], list of items) whose results stay alive, and bulk calls whose '
+        'queries / query / references are such blocks, the holder itself or separate arrays; non-trivial: a call with two '
+        'different cells uses a block that was taken before another read of the holder (a later take, or a call - this one '
+        'included - that has the holder as an argument).  '
+        'api / sequence / concurrent / envthreads / state / chunkgens / blocks are judged by the property predicate only (no model)')
 TRUSTED = ['tools/pyx2v.py (Cython subset -> Gallina: prange = iterations run one after the other in some order, '
            'begin/end per iteration; memoryview slice = clamped slice)',
            'OpenMP / Cython privatisation of begin,end: interleavings below iteration granularity are not modelled '
@@ -1647,8 +1664,164 @@ def k_chunkgens(ctx, cases):
 				break
 
 
+# ---- blocks read out of a holder (kind `blocks`) -------------------------------------------------------------------
+# The documented way to get the signatures of a file (or part of any holder) into memory is to index the holder:
+# holder[a:b], holder[:], holder[index list], holder[i].  What comes out is itself a collection of signatures (or one
+# signature) and is passed to the bulk functions as the queries, the references or the query - while the holder it came
+# from is still open and is read again (as the references of the same call, chunk by chunk; by a later take; by another
+# call).  Judged by the property predicate only: every cell against gambit.metric.jaccarddist of the two signatures, built
+# afresh from the case's own lists, that the cell stands for.
+
+BLK_FILE = ['hdf5', 'hdf5', 'hdf5', 'hdf5-gzip', 'hdf5-group', 'hdf5-b32', 'hdf5-annot', 'annot-hdf5']
+BLK_MEM = ['array', 'view', 'siglist', 'annot-array', 'bounds-i4', 'junk-ends', 'sub-array', 'siglist-of-array', 'fancy',
+           'pylist', 'tuple']
+BLK_PLAIN = ('pylist', 'tuple')      # plain Python sequences: only holder[a:b] / holder[i] exist
+
+
+def _blk_holder(name, sigs, dt):
+	"""like _xcont, but a plain signature file is written and opened afresh for every case (the readers of _container are
+	shared by all cases of a run: a replay, which runs one case in a new process, must see the same reader history)"""
+	if name in ('hdf5', 'annot-hdf5'):
+		from gambit.sigs.base import SignatureArray, AnnotatedSignatures, SignaturesMeta, dump_signatures, load_signatures
+		from gambit.kmers import KmerSpec
+		ks = KmerSpec(11, 'AT')
+		_state['nfile'] = _state.get('nfile', 0) + 1
+		path = os.path.join(_state['dir'], f'k{_state["nfile"]}.gs')
+		dump_signatures(path, SignatureArray([_sig(s, dt) for s in sigs], ks, dtype=np.dtype(dt)), 'hdf5')
+		h = load_signatures(path)
+		closers = [h.close, lambda: os.remove(path)]
+		if name == 'annot-hdf5':
+			return AnnotatedSignatures(h, ids=[f'g{i}' for i in range(len(sigs))], meta=SignaturesMeta(id='blocks', id_attr='key')), closers
+		return h, closers
+	return _xcont(name, sigs, dt)
+
+
+def _blk_indices(n, s):
+	"""positions (in the holder) of the signatures a take step hands out, in order; an int for a single item"""
+	how = s['how']
+	if how == 'full':
+		return list(range(n))
+	if how == 'slice':
+		return list(range(n))[s['a']:s['b']]
+	if how == 'stepslice':
+		return list(range(n))[s['a']:s['b']:s['step']]
+	if how == 'item':
+		return _norm(n, s['i'])
+	return [_norm(n, i) for i in s['idx']]       # index / items
+
+
+def _blk_take(holder, s):
+	how = s['how']
+	if how == 'full':
+		return holder[:]
+	if how == 'slice':
+		return holder[s['a']:s['b']]
+	if how == 'stepslice':
+		return holder[s['a']:s['b']:s['step']]
+	if how == 'item':
+		return holder[s['i']]
+	if how == 'items':
+		return [holder[i] for i in s['idx']]
+	return holder[_x_index(s['idx'], s.get('form', 'list'))]
+
+
+def _blk_plan(c, cache):
+	"""-> (per step: None for a take, (expected cells, shape) for a call; non-trivial?) - computed from the case's lists
+	before the holder exists"""
+	sigs, dt, n = c['sigs'], c['dt'], len(c['sigs'])
+	contents, taken_at, plan = [], [], []
+	reads = 0
+	nontriv = False
+
+	def resolve(ref):
+		if ref == 'H':
+			return [sigs[i] for i in range(n)], dt
+		if ref == 'own':
+			return c['own'], c['owndt']
+		return [sigs[i] for i in contents[ref]], dt
+
+	for s in c['steps']:
+		if s['op'] == 'take':
+			reads += 1
+			contents.append(_blk_indices(n, s))
+			taken_at.append(reads)
+			plan.append(None)
+			continue
+		rl, rdt = resolve(s['r'])
+		sc = dict(fn=s['fn'], refs=rl, rdt=rdt, ri=s.get('ri'), flat=s.get('flat'))
+		if s['fn'] == 'matrix':
+			sc['queries'], sc['qdt'] = resolve(s['q'])
+		elif s['fn'] == 'array':
+			if s['q'] == 'own':
+				sc['q'], sc['qdt'] = c['own'][0], c['owndt']
+			else:
+				sc['q'], sc['qdt'] = sigs[contents[s['q']]], dt
+		cells, shape = _x_expect(sc, cache)
+		plan.append((cells, shape))
+		flat = [x for row in cells for x in (row if isinstance(row, list) else [row])]
+		used = [r for r in (s.get('q'), s['r']) if isinstance(r, int)]
+		# a block that was handed out BEFORE another read of its holder (a later take, a call on the holder itself - this one included)
+		on_holder = 'H' in (s.get('q'), s['r'])
+		stale = any(taken_at[b] < reads or on_holder for b in used)
+		nontriv = nontriv or (len(set(flat)) >= 2 and stale)
+		reads += 1 if on_holder else 0
+	return plan, nontriv
+
+
+def k_blocks(ctx, cases):
+	import gambit.metric as gm
+	cache = {}
+	for c in cases:
+		plan, nontriv = _blk_plan(c, cache)
+		ctx.case(c, nontrivial=nontriv)
+		closers = []
+		done = []
+		try:
+			holder, closers = _blk_holder(c['cont'], c['sigs'], c['dt'])
+			own = [_sig(q, c['owndt']) for q in c.get('own', [])]
+			blocks = []
+
+			def obj(ref):
+				return holder if ref == 'H' else own if ref == 'own' else blocks[ref]
+
+			for k, (s, p) in enumerate(zip(c['steps'], plan)):
+				if s['op'] == 'take':
+					b = _blk_take(holder, s)
+					blocks.append(b if s.get('keep', True) else None)
+					del b
+					continue
+				cells, shape = p
+				out = np.full(tuple(shape), np.nan, dtype=np.float32) if s.get('out') else None
+				ri = _x_index(s.get('ri'), s.get('ri_form', 'list'))
+				_set_threads(s.get('threads', 1))
+				if s['fn'] == 'matrix':
+					call = lambda: gm.jaccarddist_matrix(obj(s['q']), obj(s['r']), ref_indices=ri, out=out, chunksize=s.get('cs'))
+				elif s['fn'] == 'array':
+					q = own[0] if s['q'] == 'own' else blocks[s['q']]
+					call = lambda: gm.jaccarddist_array(q, obj(s['r']), out=out)
+				else:
+					call = lambda: gm.jaccarddist_pairwise(obj(s['r']), indices=ri, flat=bool(s.get('flat')), out=out)
+				got, res = _call_obj(call)
+				done.append((k, s, cells, got, res, out))
+		finally:
+			_close(closers)
+		for k, s, cells, got, res, out in done:
+			names = {'H': 'the holder itself', 'own': "the caller's own arrays"}
+			role = ', '.join(f'{w} = {names.get(s[key], "block " + str(s[key]) + " read out of the holder earlier")}'
+			                 for w, key in (('queries' if s['fn'] == 'matrix' else 'query', 'q'), ('references', 'r')) if key in s)
+			what = f'step {k}: jaccarddist_{s["fn"]} [{c["cont"]}; {role}; chunksize {s.get("cs")}, indices {s.get("ri")}, threads {s.get("threads", 1)}]'
+			if got != ('ok', cells):
+				ctx.violation('blocks', c, f'{what}: a cell differs bit-wise from gambit.metric.jaccarddist of the pair it stands for '
+				              f'(or the call failed)', impl=got, spec=cells)
+				break
+			if out is not None and res is not out:
+				ctx.violation('blocks', c, f'{what}: result is not the caller-supplied buffer', impl=got)
+				break
+
+
 KINDS = {'array': k_array, 'matrix': k_matrix, 'pairwise': k_pairwise, 'chunks': k_chunks, 'schedule': k_schedule,
-         'api': k_api, 'sequence': k_seq, 'concurrent': k_conc, 'envthreads': k_env, 'state': k_state, 'chunkgens': k_chunkgens}
+         'api': k_api, 'sequence': k_seq, 'concurrent': k_conc, 'envthreads': k_env, 'state': k_state, 'chunkgens': k_chunkgens,
+         'blocks': k_blocks}
 SHRINK = False
 BATCH = 400
 
@@ -1860,6 +2033,9 @@ def generate(ctx):
 
 	# ======== streams added by the statefulness / aliasing audit (section "state and aliasing" of the docstring) =====
 	yield from _state_streams(ctx)
+
+	# ======== blocks read out of a holder and used while the holder is read again (kind `blocks`) =====
+	yield from _block_streams(ctx)
 
 
 def _top(dt):
@@ -2442,3 +2618,100 @@ def _state_streams(ctx):
 			pairs.append(list(rng.choice(pairs)))
 		ctx.count('stream:state-chunk-generators')
 		yield 'chunkgens', dict(pairs=pairs)
+
+
+def _blk_case(rng, cont=None):
+	"""a script on ONE holder: take steps (holder[a:b], holder[:], holder[a:b:step], holder[index list], holder[i],
+	[holder[i] for i in ...]) whose results are all kept (or dropped at once: keep=False), and bulk calls whose queries /
+	query / references are such blocks, the holder itself, or the caller's own arrays"""
+	cont = cont or rng.choice(BLK_FILE if rng.random() < 0.65 else BLK_MEM)
+	plain = cont in BLK_PLAIN
+	dt = rng.choice(GOOD_DT)
+	n = rng.choice([2, 3, 4, 5, 6, 9, 12, 20])
+	sigs = _rand_coll(rng, n, rng.choice([3, 6, 20]), rng.choice([6, 12, 40, 40, 1000]))
+	owndt = rng.choice(GOOD_DT)
+	c = dict(cont=cont, dt=dt, sigs=sigs, owndt=owndt, own=_rand_coll(rng, rng.choice([1, 2, 3]), 6, rng.choice([6, 12, 40])))
+	steps = []
+	colls, items = [], []        # block numbers holding a collection / a single signature
+	lens = []
+
+	def take():
+		hows = ['slice'] * 4 + ['full'] * 3 + ['item', 'items'] + ([] if plain else ['index', 'index', 'stepslice'])
+		how = rng.choice(hows)
+		s = dict(op='take', how=how)
+		if how == 'slice':
+			a = rng.randint(0, n - 1)
+			s.update(a=a, b=rng.randint(a + (rng.random() < 0.9), n))
+		elif how == 'stepslice':
+			step = rng.choice([2, 3, -1, -2])
+			a, b = rng.randint(0, n - 1), rng.randint(0, n)
+			s.update(a=max(a, b) if step < 0 else min(a, b), b=min(a, b) if step < 0 else max(a, b), step=step)
+		elif how == 'item':
+			s['i'] = rng.randint(-n, n - 1)
+		else:
+			if how != 'full':
+				s['idx'] = [rng.randint(0 if how == 'items' and plain else -n, n - 1) for _ in range(rng.choice([1, 2, n, n + 2]))]
+			if how == 'index':
+				s['form'] = rng.choice(['list', 'np:i8', 'np:i4'])
+		if rng.random() < 0.15:
+			s['keep'] = False
+		steps.append(s)
+		got = _blk_indices(n, s)
+		lens.append(1 if how == 'item' else len(got))
+		if s.get('keep', True):
+			(items if how == 'item' else colls).append(len(lens) - 1)
+
+	def call():
+		fn = rng.choice(['matrix', 'matrix', 'matrix', 'array', 'pairwise'])
+		s = dict(op='call', fn=fn, threads=rng.randint(1, 16))
+		r = rng.choice(colls + ['H']) if colls else 'H'
+		if fn == 'matrix':
+			q = rng.choice(colls + colls + ['H', 'own']) if colls else rng.choice(['H', 'own'])
+			if q == 'own' and r == 'H' and colls:       # nothing of this stream in it: use a block
+				q = rng.choice(colls)
+			s['q'] = q
+		elif fn == 'array':
+			s['q'] = rng.choice(items + items + ['own']) if items else 'own'
+			if s['q'] == 'own' and colls:
+				r = rng.choice(colls)
+		s['r'] = r
+		m = n if r == 'H' else lens[r]
+		if fn != 'array' and rng.random() < 0.4:
+			s['ri'] = _rand_indices(rng, m) if m else []
+			s['ri_form'] = rng.choice(['list', 'list', 'np:i8', 'tuple'])
+		nr = len(s['ri']) if s.get('ri') is not None else m
+		if fn == 'matrix':
+			s['cs'] = rng.choice([None, 1, 1, 2, 3, max(1, nr - 1), max(1, nr // 2), nr + 1])
+		if fn == 'pairwise':
+			s['flat'] = rng.random() < 0.5
+		if rng.random() < 0.3:
+			s['out'] = True
+		steps.append(s)
+
+	take()
+	for _ in range(rng.randint(1, 7)):
+		if rng.random() < 0.45:
+			take()
+		else:
+			call()
+	call()
+	c['steps'] = steps
+	return c
+
+
+def _block_streams(ctx):
+	rng = ctx.rng
+	# every holder type once per run with the two plainest scripts: all of the holder as the queries against the holder in
+	# chunks; two blocks held at the same time, the first as the queries, the second as the references
+	for cont in sorted(set(BLK_FILE + BLK_MEM)):
+		n = rng.choice([5, 8, 12])
+		base = dict(cont=cont, dt=rng.choice(GOOD_DT), sigs=_rand_coll(rng, n, 6, 12), owndt='u8', own=[])
+		a = rng.randint(1, n - 2)
+		ctx.count('stream:blocks-holder-types', 2)
+		yield 'blocks', dict(base, steps=[dict(op='take', how='full'),
+		                                  dict(op='call', fn='matrix', q=0, r='H', cs=rng.choice([1, 2, 3]), threads=rng.randint(1, 16))])
+		yield 'blocks', dict(base, steps=[dict(op='take', how='slice', a=a, b=n), dict(op='take', how='slice', a=0, b=a),
+		                                  dict(op='call', fn='matrix', q=0, r=1, cs=None, threads=rng.randint(1, 16))])
+	for _ in range(ctx.pick(500, 8000)):
+		ctx.count('stream:blocks-scripts')
+		yield 'blocks', _blk_case(rng)
